@@ -52,8 +52,34 @@ def value_types(u, const_alias=None, with_value=True):
     u.assume('HashMap<Name,_>/IndexMap<Name,_> represented by a shim whose lookup contract is that of a map keyed by the name text (assumed contract on std/indexmap)')
 
 
-def ast_types(u):
-    """Executable-document AST, extracted verbatim (derives and docs stripped; HashMap -> NameMap shim)."""
+def value_types_ctx(u):
+    """The two value types as src/context.rs names them: `Value` = async_graphql_value::ConstValue, `InputValue` =
+    async_graphql_value::Value (may contain variables). IndexMap<Name, _> is the transparent entry-list shim IndexMapE."""
+    u.prelude('value_shims')
+    u.prelude('indexmap_e')
+    u.trusted(MAP_SHIMS, 'HashMap/BTreeMap keyed by Name (shim)')
+    u.extract_type(V, ['enum Value'],
+                   rewrites=[Sub('IndexMap<Name, Value>', 'IndexMapE<InputValue>', rule='R-ty'), Sub('Value', 'InputValue', count='+', rule='R-alias')],
+                   label=V + '::enum Value (as crate::InputValue)')
+    u.extract_type(V, ['enum ConstValue'],
+                   rewrites=[Sub('IndexMap<Name, ConstValue>', 'IndexMapE<ConstValue>', rule='R-ty'), Sub('ConstValue', 'Value', count='+', rule='R-alias')],
+                   label=V + '::enum ConstValue (as crate::Value)')
+    u.assume('target is 64-bit (global size_of usize == 8)')
+    u.assume('indexmap::IndexMap<Name,_> represented by its insertion-ordered entry list with distinct keys (type invariant) and indexmap\'s documented insert (assumed contract on a dependency)')
+    u.assume('BTreeMap/HashMap<Name,_> represented by a shim whose lookup contract is that of a map keyed by the name text (assumed contract on std)')
+
+
+CTX_ALIAS = [Sub('ConstValue', 'Value__C', count='*', rule='R-alias'), Sub('Value', 'InputValue', count='*', rule='R-alias'), Sub('Value__C', 'Value', count='*', rule='R-alias')]
+
+
+def ast_types(u, alias=()):
+    """Executable-document AST, extracted verbatim (derives and docs stripped; HashMap -> NameMap shim).
+    alias: extra renames applied to every type (CTX_ALIAS when the unit uses context.rs' names for the two value types)."""
+    alias = list(alias)
+    _orig = u.extract_type
+    def _et(file, path, rewrites=(), **kw):
+        return _orig(file, path, rewrites=list(rewrites) + alias, **kw)
+    u = _Proxy(u, _et)
     u.extract_type(PO, ['struct Pos'], keep_derives=['Clone', 'Copy'])
     u.extract_type(PO, ['struct Positioned'], rewrites=[Sub('<T: ?Sized>', '<T>', rule='R-ty')])
     u.extract_type(TM, ['enum OperationType'])
@@ -68,6 +94,12 @@ def ast_types(u):
     # real accessor, extracted and under contract (so that code switching between name and alias is decided, not rejected)
     u.extract_fn(EX, ['impl Field', 'fn response_key'], wrap_impl='Field', canary=False,
                  ensures=['*r == (match self.alias { Some(a) => a, None => self.name })'])
+
+class _Proxy:
+    """Unit proxy that routes extract_type through a wrapper (adds alias rewrites)."""
+    def __init__(self, u, et): self._u, self.extract_type = u, et
+    def __getattr__(self, k): return getattr(self._u, k)
+
 
 R = 'src/registry/mod.rs'
 
